@@ -66,7 +66,7 @@ func (c *rangeExprCopyChecker) VisitStmt(stmt ast.Stmt) {
 	if !tv.Addressable() {
 		return
 	}
-	if _, ok := tv.Type.(*types.Array); !ok {
+	if _, ok := tv.Type.Underlying().(*types.Array); !ok {
 		return
 	}
 	if size, ok := c.ctx.SizeOf(tv.Type); ok && size >= c.sizeThreshold {
